@@ -273,6 +273,17 @@ def run(ctx, rep):
         rep.case(key="; ".join(d["ops"]) if any(o.startswith("Crash") for o in d["ops"]) else None)
         for sig, text in d["oracle"]:
             rep.violate(sig.replace("C02:", "C03:"), text, {"kind": "history", "ops": [c02._ser(o) for o in h]})
+    # chains of crashing sessions (the family C03_crash_chain / C03_run_chain quantify over): 3..6 writing sessions in a row, each
+    # reopening for append (which has to cut back what the previous death left), putting 1..2 records and dying at a random point of
+    # its appended stream; then a recovering writer re-puts a key a death tore, and an independent reader lists and reads everything
+    for r in range(400 if ctx.thorough else 60):
+        h = gen_chain(ctx.rng)
+        d = U.drive(path, h, nh=3)
+        cases.append(U.case_coq(d, 3)); meta.append(("chain", r))
+        rep.case(key="chain:" + "; ".join(d["ops"]))
+        rep.count("crash-chain")
+        for sig, text in d["oracle"]:
+            rep.violate(sig.replace("C02:", "C03:") + ":chain", text, {"kind": "history", "ops": [c02._ser(o) for o in h]})
     bad = vlib.run_shards(ctx, rep, "c03", U.HEADER, "check_case", cases, shard=300, case_type="case")
     found = bool(rep.violations)
     if nonappend:
@@ -293,6 +304,36 @@ def run(ctx, rep):
     if not tok:
         vlib.broken_obligation(rep, "Props/C02code.v", "the translation of molli/storage/ukvfile.py no longer refines Model/UKV.v "
                                f"(map_blocks / put are what C03_crash_reopen is about): {twhere}\n{tout[-1500:]}", bool(rep.violations))
+
+
+def gen_chain(rng):
+    keys = [k for k in U.KEYS if len(k) < 256]
+    rng.shuffle(keys)
+    ops, used = [], []
+    nsess = rng.randint(3, 6)
+    for s_ in range(nsess):
+        i = rng.randrange(3)
+        ops.append(("open", i, "a"))
+        for _ in range(rng.randint(1, 2)):
+            # mostly a key no session used; sometimes one a death may have torn (accepted then) or one that survived (KeyError)
+            k = keys[len(used) % len(keys)] if rng.random() < 0.8 or not used else rng.choice(used)
+            used.append(k)
+            ops.append(("put", i, k, U.Val(rng.randrange(256) if rng.random() < 0.8 else -1, rng.choice(U.VLENS))))
+        ops.append(("crash", rng.choice([0.0, 1.0, rng.random(), rng.random(), rng.random()])))
+    w = rng.randrange(3)
+    ops.append(("open", w, "a"))
+    ops.append(("keys", w))
+    for k in used[-2:]:
+        ops.append(("put", w, k, U.Val(rng.randrange(256), 3)))
+    for k in dict.fromkeys(used):
+        ops.append(("get", w, k))
+    ops.append(("close", w))
+    rd = (w + 1) % 3
+    ops.append(("open", rd, "r")); ops.append(("keys", rd))
+    for k in dict.fromkeys(used):
+        ops.append(("get", rd, k))
+    ops.append(("close", rd))
+    return ops
 
 
 def replay(ctx, data):
